@@ -6,7 +6,7 @@
    not occur. *)
 Require Import PG.Base.Bytes PG.Base.GoSlice.
 Require Import PG.C17.Names PG.C17.Model PG.C17.SpecNames PG.C17.Spec.
-Require Import PG.C17.NamesProofs PG.C17.BlockrefsProofs PG.C17.PageProofs PG.C17.SegmentProofs PG.C17.RefuteProofs.
+Require Import PG.C17.NamesProofs PG.C17.BlockrefsProofs PG.C17.PageProofs PG.C17.SegmentProofs PG.C17.RefuteProofs PG.C17.TallyProofs.
 
 (* ------------------------------------------------------------------ pages *)
 (* Every well-formed WAL page (long or short header, any page address / timeline / info bits, with or
@@ -116,3 +116,64 @@ Proof.
   - apply ParseWALFile_total.
 Qed.
 Print Assumptions C17_no_panic.
+
+(* ------------------------------------------------------------------ directory summary *)
+(* [ents] = the listing of <datadir>/pg_wal as data (name, IsDir, what ReadFile returns; None = error).
+   [dir_recs ents] = the records ParseWALFile reports for the selected files (regular files with a
+   24-character name not ending in ".history"), concatenated in name order.  For EVERY listing:
+   ScanWALDirectory never panics, and its record count, per-operation counts, per-relation counts
+   (relations with a non-zero relfilenode), per-transaction list (sorted by xid, with the number of the
+   transaction's records and COMMIT / ABORT / IN_PROGRESS decided by its last Transaction-rmgr record that
+   commits or aborts) and first / last LSN equal the tallies over exactly those records. *)
+Theorem C17_tallies : forall ents,
+  exists sum, ScanWALDirectory ents = Ok (Some sum) /\
+    let recs := dir_recs ents in
+    s_records sum = Z.of_nat (length recs) /\
+    (forall name, lookup bytes_eqb name (s_ops sum) = count (bytes_eqb name) (map r_op recs)) /\
+    NoDup (map fst (s_ops sum)) /\
+    (forall k, lookup pair_eqb k (s_tables sum) = count (pair_eqb k) (table_keys recs)) /\
+    NoDup (map fst (s_tables sum)) /\
+    s_txns sum = spec_txns recs /\
+    (Forall (fun r => 0 < r_lsn r) recs ->
+       s_first sum = FormatLSN (zmin_list (map r_lsn recs)) /\ s_last sum = FormatLSN (zmax_list (map r_lsn recs))).
+Proof.
+  intros ents. destruct (scan_tallies ents) as (sum & H & A & _ & B & C & _ & D & E & F & G).
+  exists sum. split; [exact H|]. cbn zeta in *.
+  split; [exact A|]. split; [exact B|]. split; [exact C|]. split; [exact D|]. split; [exact E|].
+  split; [apply F, dir_recs_named|exact G].
+Qed.
+Print Assumptions C17_tallies.
+
+(* the extracted spec-side tallies (spec_ops / spec_tables, used to print S) are the same finite maps *)
+Theorem C17_tallies_spec_maps : forall ents,
+  exists sum, ScanWALDirectory ents = Ok (Some sum) /\
+    (forall name, lookup bytes_eqb name (s_ops sum) = lookup bytes_eqb name (spec_ops (dir_recs ents))) /\
+    (forall k, lookup pair_eqb k (s_tables sum) = lookup pair_eqb k (spec_tables (dir_recs ents))).
+Proof.
+  intros ents. destruct (scan_tallies ents) as (sum & H & _ & A & _ & _ & B & _). exists sum. auto.
+Qed.
+Print Assumptions C17_tallies_spec_maps.
+
+(* which files, and what their records are when the files are well-formed segments *)
+Theorem C17_file_selection : forall ents,
+  dir_ok ents -> filter is_wal_name ents = filter is_segment_file ents.
+Proof. exact selection_spec. Qed.
+Print Assumptions C17_file_selection.
+Theorem C17_file_records : forall e its tr t,
+  d_file e = Some {| vis := enc_segment its tr; tail := t |} ->
+  Forall (wf_item 24) its -> its <> [] -> blen tr < 8192 ->
+  map header_of (file_recs e) = map header_of (expected_segment its) /\
+  (Forall item_clean its -> map observe (file_recs e) = expected_segment its).
+Proof.
+  intros e its tr t E W N T. rewrite (file_recs_segment e its tr t) by auto. split.
+  - apply segment_headers.
+  - intros C. apply segment_observe; auto.
+Qed.
+Print Assumptions C17_file_records.
+
+(* GetRecentWALRecords n = the last n records of that concatenation (n >= 0; the early exit once n
+   records are collected does not change the result) *)
+Theorem C17_recent : forall ents limit,
+  0 <= limit -> GetRecentWALRecords ents limit = Ok (Some (lastn limit (dir_recs ents))).
+Proof. exact recent_spec. Qed.
+Print Assumptions C17_recent.
